@@ -328,6 +328,16 @@ def handle : List String → Option String
     match rest with
     | [sc, db] => do some (evalBoth c (← parseScript sc) (← db? db))
     | _ => none
+  | "c11tags" :: args => do
+    let (c, rest) ← ctx? args
+    match rest with
+    | [sc] => do some (out (planTags c (← parseScript sc)))
+    | _ => none
+  | "c11values" :: args => do
+    let (c, rest) ← ctx? args
+    match rest with
+    | [kv, key, sc] => do some (out (planValues c (← str? kv) (← ofHex key) (← parseScript sc)))
+    | _ => none
   | "c11plan" :: args => do
     let (c, rest) ← ctx? args
     match rest with
